@@ -187,7 +187,7 @@ fn multi_strategy(tier: Tier) -> BoxedStrategy<MultiCase> {
     let n = tier.pick(30, 50);
     // scenario prefix named by the statement: a non-first bar finishes and is dropped before the
     // first, ticks while it waits to be reaped, then println / bar println / clear
-    let leave = |msg: &str| BarSpec { two_lines: false, len: Some(5), on_finish: 0, msg: msg.to_string(), key_nl: false };
+    let leave = |msg: &str| BarSpec { two_lines: false, len: Some(5), on_finish: 0, msg: msg.to_string(), key_nl: false, blank_first: 0 };
     let prefix = (0usize..4).prop_map(move |k| {
         let mut v = vec![MOp::Add(leave("")), MOp::Add(leave("")), MOp::MpPrintln("first".into()), MOp::Tick(0), MOp::Tick(40000)];
         match k {
@@ -419,7 +419,7 @@ fn decode_c03_multi(u: &mut FuzzInput) -> MultiCase {
     c.hz = if u.n(3) == 0 { None } else { Some([1u8, 2, 20, 60, 255][u.n(4)]) };
     c.step_ms = [0u32, 0, 1, 20, 2000][u.n(4)];
     // limiter exhausted first, as in the generated scenarios
-    let mut pre = vec![MOp::Add(BarSpec { two_lines: false, len: Some(5), on_finish: 0, msg: String::new(), key_nl: false }), MOp::Add(BarSpec { two_lines: false, len: Some(5), on_finish: 0, msg: String::new(), key_nl: false })];
+    let mut pre = vec![MOp::Add(BarSpec { two_lines: false, len: Some(5), on_finish: 0, msg: String::new(), key_nl: false, blank_first: 0 }), MOp::Add(BarSpec { two_lines: false, len: Some(5), on_finish: 0, msg: String::new(), key_nl: false, blank_first: 0 })];
     pre.extend(std::iter::repeat(MOp::Tick(0)).take(22));
     pre.append(&mut c.ops);
     c.ops = pre;
